@@ -17,6 +17,7 @@ package main
 //                         a permutation of it otherwise; empty initial_source_connection_id =
 //                         this dial's source connection ID
 //   uspecdial/raw-verbatim every raw/fake parameter of the spec is on the wire with its own bytes
+//   uspecdial/key-share   key_share entries on the wire = the spec's (groups; bytes where given)
 //   uspecdial/spec-untouched  the spec's own list (objects, order) is what the caller wrote,
 //                         after every dial
 //   uspecdial/draws       the recorded draws reproduce the wire order exactly (Fisher-Yates
@@ -127,6 +128,18 @@ func uspecdialSequence(w *bufio.Writer, rep *fpReporter, r *u.Rng, name string, 
 		return
 	}
 	ext := fpSpecExt(sp)
+	kse := fpSpecKeyShareExt(sp)
+	if kse != nil && r.Chance(1, 3) {
+		fpAddKeyShareData(r, kse)
+	}
+	var specKeys []fpKeyShare
+	var keyTerms []string
+	if kse != nil {
+		specKeys = fpSpecKeyShares(kse)
+		for _, k := range specKeys {
+			keyTerms = append(keyTerms, u.Pair(u.Z(int64(k.Group)), u.Hex(k.Data)))
+		}
+	}
 	written := append(tls.TransportParameters{}, ext.TransportParameters...)
 	decl := fpSnapshot(ext)
 	for i := range decl {
@@ -180,7 +193,7 @@ func uspecdialSequence(w *bufio.Writer, rep *fpReporter, r *u.Rng, name string, 
 			rep.fail("uspecdial/capture", "dial into the simulation failed: "+err.Error(), cfg)
 			return
 		}
-		o, err := fpDecode(fl)
+		o, err := fpHelloOnly(fl)
 		if err != nil {
 			rep.fail("uspecdial/capture", "first flight does not decode: "+err.Error(), cfg)
 			return
@@ -227,12 +240,34 @@ func uspecdialSequence(w *bufio.Writer, rep *fpReporter, r *u.Rng, name string, 
 		if !uSamePtrs(ext.TransportParameters, written) {
 			rep.fail("uspecdial/spec-untouched", "the spec's own parameter list changed during a dial", detail+" now="+fpParamsString(fpSnapshot(ext)))
 		}
-		steps = append(steps, u.App("DStep", uZUList(sup), u.B(rnd), u.List(swTerms), u.Hex(o.SCID), uspecdialWireTerm(wire)))
+		// key shares: groups in order, the spec's bytes where it gives them
+		var wkTerms []string
+		if specKeys != nil {
+			wk, kerr := fpWireKeyShares(o.Hello)
+			dk := ""
+			if kerr != nil {
+				dk = "key_share extension does not parse: " + kerr.Error()
+			} else {
+				dk = fpCheckKeyShares(specKeys, wk)
+			}
+			if dk != "" {
+				rep.fail("uspecdial/key-share", "the key_share extension on the wire is not what the spec describes: "+dk,
+					cfg+" spec key shares="+fpKeySharesString(specKeys)+" wire key shares="+fpKeySharesString(wk))
+			}
+			for i, k := range wk { // (group GREASE-normalised, length, bytes when the spec supplied them)
+				data := []byte{}
+				if i < len(specKeys) && len(specKeys[i].Data) > 0 {
+					data = k.Data
+				}
+				wkTerms = append(wkTerms, u.Pair(u.Z(int64(fpNorm16(k.Group))), u.Z(int64(len(k.Data))), u.Hex(data)))
+			}
+		}
+		steps = append(steps, u.App("DStep", uZUList(sup), u.B(rnd), u.List(swTerms), u.Hex(o.SCID), uspecdialWireTerm(wire), u.List(wkTerms)))
 	}
 	if nRand >= 3 && nParams >= 6 && len(orders) == 1 {
 		rep.fail("uspecdial/fresh-order", fmt.Sprintf("%d randomised dials of one spec value all sent the same order", nRand), name+" "+specTerm)
 	}
-	fmt.Fprintf(w, "CASE 1 %s\n", u.App("DSeq", specTerm, u.List(steps)))
+	fmt.Fprintf(w, "CASE 1 %s\n", u.App("DSeq", specTerm, u.List(keyTerms), u.List(steps)))
 }
 
 func runUSpecDial(w *bufio.Writer, seed uint64, n int, _ []string) {
